@@ -58,8 +58,24 @@ def _work(job):
         days = range(lo, mo + 1)
     runs = []
     prev = None
-    for d in days:
+    # interference (results discarded): the same function asked about other competition dates - the season's cut-off
+    # days, the neighbouring days and years, the other categories - before and during the sweep.  The age group is a
+    # function of the two dates: nothing an earlier call computed may leak into a later answer.
+    others = [date(m.year, 8, 31), date(m.year + 1, 8, 31), date(m.year - 1, 8, 31), date(m.year, 9, 1), date(m.year, 12, 31),
+              date(m.year, 1, 1), m + timedelta(days=1), m - timedelta(days=1), date(m.year + 1, m.month, min(m.day, 28)),
+              date(m.year - 1, m.month, min(m.day, 28))]
+
+    def interfere(b, k):
+        om = others[k % len(others)]
+        for c2 in ('TF', 'XC', 'ROAD'):
+            label(fn, b, om, c2, True, False, False)
+        label(fn, b, others[(k + 3) % len(others)], cat, False, True, k % 2 == 0)
+    for k, om in enumerate(others):
+        interfere(date(m.year - 13, 9, 15), k)
+    for i, d in enumerate(days):
         b = date.fromordinal(d)
+        if i % 89 == 44:
+            interfere(b, i // 89)
         labs = [label(fn, b, m, cat, v, u, s) for (v, u, s) in COLS[:ncols]]
         if prev is not None and prev[1] == d - 1 and prev[2:] == labs:
             prev[1] = d
